@@ -243,6 +243,66 @@ func panicSig(p *mon.Panic) string {
 	return stripGen(strings.TrimPrefix(strings.TrimSpace(f), einoPfx))
 }
 
+// nilChunkSymptom: a converter that is handed a nil interface value (a legal chunk of a
+// StreamReader[any], [error], [fmt.Stringer]) must map it like any other item. When a run shows
+// the symptom of a converter choking on such a chunk -- the Recv that runs the converter
+// panics; the forwarder goroutine that runs it surfaces the panic as an error item nobody
+// sent; a copy is unusable because the panic happened while a sibling filled the shared
+// element -- that is reported under its own signature and nothing else is concluded from
+// this run: the dying forwarder closed its source, the copy parent never closes it, ... are
+// all consequences. Only the logs of ends whose goroutine is done are looked at.
+func nilChunkSymptom(t *tree, out *runOut, rep *mon.Reporter, w witness) bool {
+	m := t.m
+	primary := map[string]string{}
+	for i, lg := range out.el {
+		rm := &m.readers[t.Ends[i].Reader]
+		if !rm.nilIn() {
+			continue
+		}
+		select {
+		case <-lg.fin:
+		default:
+			continue
+		}
+		who := fmt.Sprintf("end %d (reader %d, %s reader of StreamReader[%s], %d source strands)", i, t.Ends[i].Reader, typNames[rm.typ], etNames[rm.et], len(rm.strands))
+		if lg.pan != nil {
+			if lg.op == "Recv" {
+				primary["Recv-panics"] = fmt.Sprintf("%s panicked in Recv: %s\n%s", who, lg.pan.Value, lg.pan.Stack)
+			}
+			continue
+		}
+		var obs []elem
+		foreign, afterClosed := 0, 0
+		for _, o := range lg.obs {
+			switch o.e.K {
+			case ePanic:
+				foreign++
+			case eRecvClosed:
+				afterClosed++
+			}
+			if o.e.K != eEOF {
+				obs = append(obs, o.e)
+			}
+		}
+		if foreign+afterClosed == 0 {
+			continue
+		}
+		if class, text := matchObs(rm.strands, obs, lg.sawEOF); class != "" {
+			k := "forwarder-surfaces-a-panic-as-error-item"
+			if afterClosed > 0 {
+				k = "copy-unusable-after-panic-in-sibling"
+			} else if class != "foreign-error" {
+				continue // the sequence is wrong for another reason: judged by the general oracle
+			}
+			primary[k] = fmt.Sprintf("%s received an error item that nobody sent, on a path where a converter is handed a nil interface value: %s\nforeign error items seen by this end: %q", who, text, lg.foreign)
+		}
+	}
+	for _, k := range mon.SortedKeys(primary) {
+		rep.Violation("C08/convert/nil-interface-chunk/"+k, primary[k], w)
+	}
+	return len(primary) > 0
+}
+
 type stats struct {
 	items, recvs, sends, sendsClosed, eofs             int64
 	boundExact, boundFwd, told, premChecked            int64
@@ -260,6 +320,10 @@ func judge(t *tree, out *runOut, rep *mon.Reporter) (st stats, order string) {
 	w := witness{Tree: t, Schedule: out.sc}
 
 	if out.buildPan != nil {
+		if op := out.buildOp; op != nil && op.Kind == "skip" && out.buildErr == "" && m.readers[op.In[0]].nilIn() {
+			rep.Violation("C08/convert/nil-interface-chunk/Recv-panics", "Recv of a converted array reader (pre-read before it is copied/merged) panicked: "+out.buildPan.Value+"\n"+out.buildPan.Stack, w)
+			return
+		}
 		if out.buildErr != "" {
 			rep.Violation("C08/build/"+strings.SplitN(out.buildErr, " ", 2)[0], out.buildErr, w)
 		} else {
@@ -288,6 +352,9 @@ func judge(t *tree, out *runOut, rep *mon.Reporter) (st stats, order string) {
 	}
 	switch out.wait {
 	case mon.Stuck:
+		if nilChunkSymptom(t, out, rep, w) {
+			return
+		}
 		var b strings.Builder
 		for _, g := range out.stuck {
 			b.WriteString(g.Raw + "\n\n")
@@ -296,6 +363,10 @@ func judge(t *tree, out *runOut, rep *mon.Reporter) (st stats, order string) {
 		return
 	case mon.Inconclusive:
 		rep.Inconclusive("wall-clock watchdog fired while goroutines were still active (not quiescent)")
+		return
+	}
+
+	if nilChunkSymptom(t, out, rep, w) {
 		return
 	}
 
@@ -348,16 +419,7 @@ func judge(t *tree, out *runOut, rep *mon.Reporter) (st stats, order string) {
 			}
 		}
 		if class, text := matchObs(rm.strands, obs, lg.sawEOF); class != "" {
-			// input class: a converter on the way is handed a nil interface value
-			sfx := ""
-			if class == "foreign-error" {
-				for _, s := range rm.strands {
-					if s.NilIn && !s.Pan {
-						sfx = "/nil-interface-chunk-into-converter"
-					}
-				}
-			}
-			rep.Violation("C08/seq/"+class+"/"+typNames[rm.typ]+sfx,
+			rep.Violation("C08/seq/"+class+"/"+typNames[rm.typ],
 				fmt.Sprintf("end %d (reader %d, %s reader of StreamReader[%s], %d source strands): %s\nforeign error items seen by this end: %q", i, t.Ends[i].Reader, typNames[rm.typ], etNames[rm.et], len(rm.strands), text, lg.foreign), w)
 		}
 	}
